@@ -18,7 +18,7 @@ def c05_oracle(case, obs):
     out = []
     cfg = case["cfg"]
     tick = cfg["tick_ns"]
-    epoch = obs.get("epoch_ns", cfg.get("epoch_ms", 1000000) * MS)
+    epoch = F.epoch_of(cfg)          # the CONFIGURED epoch, not what the simulation reports
     incs, evinfo = F.incarnations(case, obs)
     offset = {}                    # host -> Sim::elapsed at registration
     for d in incs:
@@ -162,7 +162,7 @@ def gen_clock_case(rng, odd=0.15, fail=0.0):
         if r < 0.3:
             end = "ok"
         elif r < 0.3 + fail:
-            end = "err"
+            end = rng.choice(F.ERR_KINDS)
         p = F.gen_prog(rng, tick, end=end, whole=whole, ticker=rng.random() < 0.7,
                        tasks=rng.choice([0, 1, 1, 2, 3]), nops=rng.randrange(1, 8))
         for t in p["tasks"]:
@@ -227,7 +227,8 @@ def gen_crash_points():
                     script = [["host", [p]]] + [["step"]] * i + [["crash", {"h": 0}]] + [["step"]] * j
                     script += [["client", {"main": [["obs"], ["sleep", d * MS], ["obs"]], "end": "ok", "ticker": False, "tasks": []}]]
                     script += [["bounce", {"h": 0}]] + [["step"]] * 6 + [["probe"]]
-                    cfg = {"tick_ns": tick, "duration_ns": 1000 * MS, "epoch_ms": 123, "random_order": (i + j) % 2 == 0, "seed": i * 7 + j}
+                    cfg = {"tick_ns": tick, "duration_ns": 1000 * MS, "epoch_ns": F.EPOCHS[(i + j + d) % len(F.EPOCHS)],
+                           "random_order": (i + j) % 2 == 0, "seed": i * 7 + j}
                     out.append({"cfg": cfg, "script": script, "flavour": "clock-crashpoints"})
     return out
 
